@@ -215,3 +215,79 @@ pub fn storage(_args: &[String]) -> i32 {
     }
     0
 }
+
+/// `token`: stdin script, cases separated by `RESET <t0_ns>` (store created at t0):
+///   CO <t_ns> <ip>            -> `CO <token hex>`
+///   CI <t_ns> <ip> <ref>      -> `CI 0|1`   (token returned by operation #ref of this case)
+///   CR <t_ns> <ip> <kind> <ref> -> `CI 0|1` (kind: flip = token #ref with one bit flipped,
+///                                 short/long = 19/21 bytes, zero = 20 zero bytes, swap = token #ref byte-reversed)
+/// The checkin path mimics the handler: Token::new(bytes) must succeed, else refused.
+pub fn token(_args: &[String]) -> i32 {
+    use btdht::verif::{Token, TokenStore};
+    let stdin = io::stdin();
+    let stdout = io::stdout();
+    let mut out = io::BufWriter::new(stdout.lock());
+    let mut st: Option<TokenStore> = None;
+    let mut toks: Vec<Option<Vec<u8>>> = Vec::new();
+    for line in stdin.lock().lines() {
+        let line = line.unwrap();
+        let p: Vec<&str> = line.split_whitespace().collect();
+        if p.is_empty() {
+            continue;
+        }
+        match p[0] {
+            "RESET" => {
+                set_time(p[1]);
+                st = Some(TokenStore::new());
+                toks.clear();
+                writeln!(out, "RESET").unwrap();
+            }
+            "CO" => {
+                set_time(p[1]);
+                let ip = parse_ip(p[2]).unwrap();
+                let t = st.as_mut().unwrap().checkout(ip);
+                let b = t.as_ref().to_vec();
+                writeln!(out, "CO {}", hex::encode(&b)).unwrap();
+                toks.push(Some(b));
+            }
+            "CI" | "CR" => {
+                set_time(p[1]);
+                let ip = parse_ip(p[2]).unwrap();
+                let bytes: Vec<u8> = if p[0] == "CI" {
+                    let r: usize = p[3].parse().unwrap();
+                    toks[r].clone().expect("ref is not a checkout")
+                } else {
+                    let r: usize = p[4].parse().unwrap();
+                    let base = toks.get(r).cloned().flatten().unwrap_or(vec![7u8; 20]);
+                    match p[3] {
+                        "flip" => {
+                            let mut b = base;
+                            b[3] ^= 0x10;
+                            b
+                        }
+                        "short" => base[..19].to_vec(),
+                        "long" => {
+                            let mut b = base;
+                            b.push(0);
+                            b
+                        }
+                        "zero" => vec![0u8; 20],
+                        "swap" => base.iter().rev().cloned().collect(),
+                        _ => vec![],
+                    }
+                };
+                let ok = match Token::new(&bytes) {
+                    Ok(t) => st.as_mut().unwrap().checkin(ip, t),
+                    Err(_) => false,
+                };
+                writeln!(out, "CI {}", ok as u8).unwrap();
+                toks.push(None);
+            }
+            other => {
+                eprintln!("bad op {other}");
+                return 2;
+            }
+        }
+    }
+    0
+}
